@@ -193,3 +193,16 @@ End WithOracle.
 Definition all_new_arms : list builtin :=
   [B_sin; B_cos; B_tan; B_asin; B_acos; B_atan; B_log; B_log10; B_exp; B_trim; B_uppercase; B_lowercase;
    B_to_string; B_join; B_format; B_print; B_time_now].
+
+(* a concrete inhabitant of the oracle type (every libm function is the identity, powf the first
+   projection, the text functions the identity, the clock at 1.0 s), for the evaluated examples *)
+Definition oracle_trivial : oracle := {|
+  o_sin := fun x => x; o_cos := fun x => x; o_tan := fun x => x; o_asin := fun x => x; o_acos := fun x => x;
+  o_atan := fun x => x; o_ln := fun x => x; o_log10 := fun _ => nzero; o_exp := fun x => x;
+  o_powf := fun x _ => x;
+  o_trim := fun s => s; o_upper := fun s => s; o_lower := fun s => s;
+  o_lam_str := fun _ _ _ => "<function>"%string;
+  o_powi := DisplayNum.powi_exec; o_fmt_prec := DisplayNum.fmt_prec_exec; o_fmt_exp14 := DisplayNum.fmt_exp14_exec;
+  o_parse_f64 := DisplayNum.parse_f64_exec;
+  o_now := Some (num_of_Z 1)
+|}.
